@@ -592,7 +592,7 @@ func cmdCheck(args []string) int {
 		nm := map[string]bool{}
 		bad := map[string]bool{}
 		for _, r := range reports {
-			ok := r.Status == "unsat" || (r.Kind == "cover.pre" && r.Status != "unsat")
+			ok := r.Status == "unsat" || (strings.HasPrefix(r.Kind, "cover.") && r.Status != "unsat")
 			if !ok {
 				bad[baseName(r.Name)] = true
 			}
